@@ -965,37 +965,149 @@ def c02g(chk):
         chk.ob("C02.g", "precomputed/entry_i=entry_(i-1)*i", ok, pc.loc(), "the table is filled by the running product acc * i")
     hp = chk.fn(HYPERGEOM)
     if hp is not None:
-        bs = an.calls(hp, "sfs_core::utils::binomial")
-        roles = []
-        for b, t in bs:
-            rr = []
-            for a in t["args"]:
-                l = op_local(a)
-                root = hp.copy_root(l) if l is not None else None
-                if root is not None and 1 <= root <= 4:
-                    rr.append(("p", root))
-                else:
-                    d = hp.single_def(root) if root is not None else None
-                    # x - y through the overflow-checked tuple
-                    if d and d[0] == "assign" and d[3]["k"] == "use":
-                        pl = op_place(d[3]["op"])
-                        d = hp.single_def(pl[0]) if pl else None
-                    if d and d[0] == "assign" and d[3]["k"] == "binop" and d[3]["op"].startswith("Sub"):
-                        rr.append(("sub", hp.copy_root(op_local(d[3]["l"])), hp.copy_root(op_local(d[3]["r"]))))
-                    else:
-                        rr.append(None)
-            roles.append(tuple(rr))
-        want = {(("p", 2), ("p", 4)), (("sub", 1, 2), ("sub", 3, 4)), (("p", 1), ("p", 3))}
-        chk.saw_calls(len(bs))
-        chk.ob("C02.g", "hypergeometric_pmf/binomial-roles", set(roles) == want and len(roles) == 3, hp.loc(),
-               "pmf = C(successes, observed) * C(size - successes, draws - observed) / C(size, draws) with (size, successes, draws, observed) = parameters 1..4; found %s" % roles)
-        # combination: (b1 * b2) / b3
-        d0 = [d for d in hp.defs.get(0, []) if d[0] == "assign" and d[3]["k"] == "binop"]
-        ok = any(d[3]["op"] == "Div" for d in d0) and sum(1 for _, _, _, rv, _ in hp.assigns() if rv["k"] == "binop" and rv["op"] == "Mul") == 1
-        chk.ob("C02.g", "hypergeometric_pmf/product-over-quotient", ok, hp.loc(), "result is (C1 * C2) / C3")
-        # observed > draws => 0
-        z = [rv for _, _, p, rv, _ in hp.assigns() if p[0] == 0 and rv["k"] == "use" and isinstance(const_val(rv["op"]), dict) and const_val(rv["op"]).get("f") == "0.0"]
-        chk.ob("C02.g", "hypergeometric_pmf/zero-when-observed>draws", len(z) == 1, hp.loc(), "the impossible case returns 0.0")
+        form = log_form(prog, hp, {1: ("lin", {1: 1}, 0), 2: ("lin", {2: 1}, 0), 3: ("lin", {3: 1}, 0), 4: ("lin", {4: 1}, 0)})
+        # C(K,k) C(N-K,n-k) / C(N,n) as signed ln-factorial terms over (N, K, n, k) = parameters 1..4 (size, successes, draws, observed)
+        def lin(n=0, K=0, d=0, k=0):
+            return tuple(sorted((i, c) for i, c in ((1, n), (2, K), (3, d), (4, k)) if c))
+        want = sorted([(+1, lin(K=1)), (-1, lin(k=1)), (-1, lin(K=1, k=-1)),
+                       (+1, lin(n=1, K=-1)), (-1, lin(d=1, k=-1)), (-1, lin(n=1, K=-1, d=-1, k=1)),
+                       (-1, lin(n=1)), (+1, lin(d=1)), (+1, lin(n=1, d=-1))])
+        got = None
+        n_exp = None
+        if form is not None and form[0] == "exp":
+            got = sorted((sg, tuple(sorted((i, c) for i, c in co.items() if c))) for sg, co, k0 in form[1] if k0 == 0)
+            got = got if len(got) == len(form[1]) else None
+            n_exp = form[2]
+        chk.saw_calls(3)
+        chk.ob("C02.g", "hypergeometric_pmf/binomial-roles", got == want, hp.loc(),
+               "pmf = C(successes, observed) * C(size - successes, draws - observed) / C(size, draws) with (size, successes, draws, observed) = parameters 1..4, "
+               "read off as signed ln-factorial terms through the helper functions (found %s)" % (got if got is not None else form,))
+        chk.ob("C02.g", "hypergeometric_pmf/product-over-quotient", got == want and n_exp == 1, hp.loc(),
+               "the ratio is formed in log-space and exponentiated once: no binomial coefficient is materialised as f64 (C(n, n/2) exceeds f64::MAX from n = 1030, "
+               "making the weight inf/inf = NaN for the cohorts of thousands of chromosomes the property names); separate exp() results combined: %s" % n_exp)
+        # the private helper's only caller is the pmf (its `n - k` relies on the pmf's guards)
+        lb = prog.fn("sfs_core::utils::ln_binomial")
+        if lb is not None:
+            callers = sorted({g_.path for g_, b_, t_ in prog.callers_of(lb.path)})
+            chk.ob("C02.g", "ln_binomial/only-called-by-the-pmf", callers == [HYPERGEOM], lb.loc(), "ln_binomial(n, k) assumes k <= n, which only hypergeometric_pmf's guards establish (callers: %s)" % callers, nontrivial=False)
+        # impossible cases return 0.0
+        z = [rv for _, _, p_, rv, _ in hp.assigns() if p_[0] == 0 and rv["k"] == "use" and isinstance(const_val(rv["op"]), dict) and const_val(rv["op"]).get("f") == "0.0"]
+        chk.ob("C02.g", "hypergeometric_pmf/zero-when-observed>draws", len(z) >= 1, hp.loc(), "the impossible case returns 0.0")
+
+
+def log_form(prog, fn, env, depth=0):
+    """Symbolic form of the f64 a utils function returns, inlining the workspace helpers it calls:
+         ("lin", {param: coef}, const)          an integer that is a linear form of the entry function's parameters
+         ("log", [(sign, {param: coef}, const)]) a sum of +-ln_factorial(linear form)
+         ("exp", terms, n_exp, rounded)          exp of such a sum, built from n_exp separate exp() results multiplied / divided together
+         ("const", x)
+       None when the value has another shape.  Constant-returning early exits (`if k > n { 0.0 }`) are ignored."""
+    if depth > 6:
+        return None
+
+    def add_lin(a, b, sg):
+        co = dict(a[1])
+        for k, v in b[1].items():
+            co[k] = co.get(k, 0) + sg * v
+        return ("lin", co, a[2] + sg * b[2])
+
+    def ev_op(op, d):
+        if d > 60:
+            return None
+        if op["k"] == "const":
+            v = op.get("val")
+            if isinstance(v, int) and not isinstance(v, bool):
+                return ("lin", {}, v)
+            if isinstance(v, dict) and "f" in v:
+                return ("const", float(v["f"]))
+            return None
+        pl = op_place(op)
+        if pl is None:
+            return None
+        l, proj = pl
+        if proj:
+            if len(proj) == 1 and proj[0][0] == "field" and proj[0][1] == 0:
+                dd = fn.single_def(l)
+                if dd and dd[0] == "assign" and dd[3]["k"] == "binop" and dd[3]["op"].endswith("WithOverflow"):
+                    return ev_rv(dd[3], d + 1)
+            return None
+        return ev_local(l, d + 1)
+
+    def ev_local(l, d):
+        if l in env and 1 <= l <= fn.argc:
+            return env[l]
+        dd = fn.single_def(l)
+        if dd is None:
+            return None
+        if dd[0] == "assign":
+            return ev_rv(dd[3], d + 1)
+        if dd[0] == "call":
+            return ev_call(dd[2], d + 1)
+        return None
+
+    def ev_rv(rv, d):
+        k = rv["k"]
+        if k == "use":
+            return ev_op(rv["op"], d + 1)
+        if k == "cast":
+            return ev_op(rv["op"], d + 1)
+        if k == "binop":
+            op = rv["op"].replace("WithOverflow", "").replace("Unchecked", "")
+            x, y = ev_op(rv["l"], d + 1), ev_op(rv["r"], d + 1)
+            if x is None or y is None:
+                return None
+            if x[0] == "lin" and y[0] == "lin" and op in ("Add", "Sub"):
+                return add_lin(x, y, 1 if op == "Add" else -1)
+            if op in ("Add", "Sub"):
+                if x[0] == "log" and y[0] == "log":
+                    return ("log", x[1] + [((sg if op == "Add" else -sg), co, k0) for sg, co, k0 in y[1]])
+                # rounding to the nearest integer: 0.5 + exp(..)
+                for u, v in ((x, y), (y, x)):
+                    if u[0] == "const" and u[1] == 0.5 and v[0] == "exp" and op == "Add":
+                        return ("exp", v[1], v[2], True)
+                return None
+            if op in ("Mul", "Div") and x[0] == "exp" and y[0] == "exp":
+                return ("exp", x[1] + [((sg if op == "Mul" else -sg), co, k0) for sg, co, k0 in y[1]], x[2] + y[2], x[3] or y[3])
+            return None
+        return None
+
+    def ev_call(t, d):
+        p = t["callee"].get("path") or ""
+        nm = p.split("::")[-1]
+        if p.startswith("std::f64::<impl f64>::") or p.startswith("core::f64::<impl f64>::"):
+            v = ev_op(t["args"][0], d + 1) if t["args"] else None
+            if nm == "exp" and v is not None and v[0] == "log":
+                return ("exp", v[1], 1, False)
+            if nm in ("floor", "round") and v is not None and v[0] == "exp":
+                return v
+            return None
+        if p == "sfs_core::utils::factorial::ln_factorial" and len(t["args"]) == 1:
+            v = ev_op(t["args"][0], d + 1)
+            if v is not None and v[0] == "lin":
+                return ("log", [(1, v[1], v[2])])
+            return None
+        g = prog.fn(t["callee"].get("resolved") or p)
+        if g is not None and g.path.startswith("sfs_core::utils::") and g is not fn:
+            env2 = {}
+            for i, a in enumerate(t["args"]):
+                v = ev_op(a, d + 1)
+                if v is None:
+                    return None
+                env2[i + 1] = v
+            return log_form(prog, g, env2, depth + 1)
+        return None
+
+    results = []
+    for dd in fn.defs.get(0, []):
+        if dd[0] == "assign":
+            if dd[3]["k"] == "use" and dd[3]["op"]["k"] == "const":
+                continue
+            results.append(ev_rv(dd[3], 0))
+        elif dd[0] == "call":
+            results.append(ev_call(dd[2], 0))
+    if len(results) == 1:
+        return results[0]
+    return None
 
 
 def c02d(chk):
